@@ -59,6 +59,9 @@ SIG = {
     "SFromJson": ["nat", "nat"],
     "SElemChangeArg": ["nat", "Z", "chan", "str", "argref", "val", "bool"],
     "SElemChangeDur": ["nat", "Z", "chan", "str", "val", "bool"],
+    "SElemAddBp": ["nat", "Z", "chan", "nat"],
+    "SElemAddArray": ["nat", "Z", "chan", "rle", "val", "markers"],
+    "SElemAddFlags": ["nat", "Z", "chan", "vals"],
     "TVarying": ["nat", "chans", "strs", "argrefs", "valss", "nat"],
     "TRepeat": ["nat", "Zs", "chans", "strs", "argrefs", "valss", "nat"],
     "TLinear": ["nat", "chan", "str", "argref", "Q", "Q", "Q", "nat"],
@@ -525,6 +528,15 @@ class Impl:
 
     def op_SElemChangeDur(self, s, pos, c, n, d, ev):
         self.elem_handle(s, pos).changeDuration(c, n, d, ev)
+
+    def op_SElemAddBp(self, s, pos, c, r):
+        self.elem_handle(s, pos).addBluePrint(c, self.B[r])
+
+    def op_SElemAddArray(self, s, pos, c, w, SR, ms):
+        self.elem_handle(s, pos).addArray(c, expand_rle(w), SR, **{n: expand_rle(a) for n, a in ms})
+
+    def op_SElemAddFlags(self, s, pos, c, fl):
+        self.elem_handle(s, pos).addFlags(c, list(fl))
 
     # tools
     def op_TVarying(self, e, cs, ns, ars, its, s):
